@@ -252,7 +252,7 @@ func solveOne(i int, o *Obligation, cfg SolveCfg) {
 	default:
 		// last attempt: the instance-only variant (quantified conjuncts of the path condition
 		// dropped, their ground instances kept). Weaker hypotheses, so only unsat counts.
-		if wtxt := o.VC.EmitOpt(o.Hyps, o.Goal, false, true); strings.Contains(wtxt, "sk!") && len(wtxt) != o.SMTSize-len("; "+o.Name+"\n") {
+		if wtxt := o.VC.EmitOpt(o.Hyps, o.Goal, false, true); len(wtxt) != o.SMTSize-len("; "+o.Name+"\n") {
 			fw := filepath.Join(cfg.OutDir, fmt.Sprintf("%04d.inst.smt2", i))
 			os.WriteFile(fw, []byte("; "+o.Name+" (instance-only variant)\n"+wtxt), 0o644)
 			r3, _ := race(fw, cfg.TimeoutS, solvers)
